@@ -68,6 +68,7 @@ func encoderWrites(f *eng.Fn) []ast.Node {
 
 func runC10(p *eng.Prog, r *eng.Report, tier string) {
 	c := &cx{p, r, tier}
+	r17ReaderHandsOnTheDecodersError(c, "C10.22")
 	closedErrorNotClassified(c, "C10.18")
 	c10WhoClosesTheStreams(c, "C10.21")
 	// C10.19 (= C04.13 / C02.14): the connection adapters perform one operation of the
